@@ -604,3 +604,50 @@ Proof.
 Qed.
 
 End GroupProofs.
+
+(* ---------- map.replace: a replacement for a key the map does not have is invisible ---------- *)
+
+Lemma replace_keys : forall m rep, map fst (mm_replace_with m rep) = map fst m.
+Proof.
+  intros m rep. unfold mm_replace_with. rewrite map_map. apply map_ext. intros [k v]. reflexivity.
+Qed.
+
+Lemma replace_get : forall m rep k,
+  assoc_v k (mm_replace_with m rep) =
+  match assoc_v k m with
+  | Some v => Some (match assoc_v k rep with Some x => x | None => v end)
+  | None => None
+  end.
+Proof.
+  intros m rep k. unfold mm_replace_with. induction m as [|[k' v] r IH]; cbn [map assoc_v fst snd]; [reflexivity|].
+  destruct (str_eqb k k') eqn:E; [|exact IH].
+  assert (Hk : assoc_v k rep = assoc_v k' rep).
+  { clear -E. assert (Heq : forall a b, str_eqb a b = true -> a = b).
+    { induction a as [|x a IHa]; intros [|y b] H; cbn [str_eqb] in H; try discriminate; [reflexivity|].
+      apply Bool.andb_true_iff in H. destruct H as [H1 H2]. apply N.eqb_eq in H1. subst. f_equal. apply IHa, H2. }
+    rewrite (Heq _ _ E). reflexivity. }
+  rewrite Hk. reflexivity.
+Qed.
+
+(* any chain of replaces (reps = the replacement maps, in order): the keys, their order and the size
+   are those of the receiver, and a key the receiver does not have stays absent whatever the
+   replacement maps contain *)
+Theorem replace_absent_invisible : forall reps m,
+  let r := fold_left mm_replace_with reps m in
+  map fst r = map fst m /\ length r = length m /\
+  forall k, assoc_v k m = None -> assoc_v k r = None.
+Proof.
+  induction reps as [|rep reps IH]; intros m; cbn [fold_left].
+  - repeat split; auto.
+  - destruct (IH (mm_replace_with m rep)) as [H1 [H2 H3]]. split; [|split].
+    + rewrite H1. apply replace_keys.
+    + rewrite H2. unfold mm_replace_with. apply map_length.
+    + intros k Hk. apply H3. rewrite replace_get, Hk. reflexivity.
+Qed.
+
+(* ... and a key the receiver has keeps being present *)
+Lemma replace_present : forall reps m k, assoc_v k m <> None -> assoc_v k (fold_left mm_replace_with reps m) <> None.
+Proof.
+  induction reps as [|rep reps IH]; intros m k H; cbn [fold_left]; [exact H|].
+  apply IH. rewrite replace_get. destruct (assoc_v k m); [discriminate|congruence].
+Qed.
